@@ -6,7 +6,7 @@ import ast
 
 from vlib.core import AnalysisError, Report
 from vlib.flow import raised_name
-from vlib.match import FI, X, atoms, deref, facts, has_call, nodes
+from vlib.match import FI, X, atoms, atoms_via, calls, deref, facts, has_call, inline_predicates, inlined_bodies2, nodes
 from vlib.srcindex import SourceIndex, mangle, unparse, walk_no_nested
 from vlib.stores import attr_of, effects_of, is_fresh, stores_of
 
@@ -161,6 +161,59 @@ def run(rep: Report, tier: str) -> None:
 		rb.check((f'{k} in self.__instances', False) in facts(rx, n), 'resolve-singleton', res.where, f'resolve must create the instance only when absent (one instance per binding generation): `{unparse(n)}` runs under {facts(rx, n)}', unparse(n))
 	lz_res = lazy.method('resolve')
 	rb.check(lz_res is not None and has_call(X(lz_res), '__bind_proxy') and any(isinstance(c_.func, ast.Attribute) and c_.func.attr == 'resolve' and isinstance(c_.func.value, ast.Call) and unparse(c_.func.value.func) == 'super' for c_ in nodes(X(lz_res), ast.Call)), 'lazy-resolve-binds-proxy', lz_res.where if lz_res else lazy.where, 'LazyDI.resolve no longer binds the lazily registered definition before delegating')
+
+	# ---- (b1) LazyDI keeps two layers: by-name definitions (own store) and the materialised bindings of DI --------------------
+	# an operation on the definitions store is decided by a membership test of THAT store: testing the materialised layer instead (super().can_resolve)
+	# treats a registration that has not been resolved yet as absent
+	rl = rep.rule('C19/lazy-layer-tests', 'in LazyDI, removal of a by-name registration (unbind) is conditional only on membership in the definitions store; the proxy binding in resolve happens exactly when the symbol is defined by name and not yet materialised', floor=2)
+
+	def layer(a: ast.AST) -> str:
+		t = unparse(a)
+		if isinstance(a, ast.Compare) and len(a.ops) == 1 and isinstance(a.ops[0], ast.In) and unparse(a.comparators[0]) == 'self.__definitions':
+			return 'definitions'
+		if 'super()' in t or any(f'self.{s_[4:]}' in t or s_ in t for s_ in ('_DI__injectors', '_DI__instances')):
+			return 'materialised'
+		return 'other'
+
+	def known_at(f, body, chain, node):
+		return [(a, pol, layer(a)) for a, pol in inline_predicates(f, atoms_via(body, chain, node), depth=3)]
+	lz_unbind = lazy.method('unbind')
+	if lz_unbind is None:
+		rl.violate('unbind:removes-definition', lazy.where, 'LazyDI.unbind vanished: the inherited unbind leaves the by-name registration in place, so the symbol stays resolvable')
+	else:
+		sites = []
+		for body, chain in inlined_bodies2(lz_unbind, 2, full=True):
+			for n in nodes(body, (ast.Delete, ast.Call)):
+				tg = n.targets[0] if isinstance(n, ast.Delete) else n.func.value if isinstance(n.func, ast.Attribute) and n.func.attr == 'pop' else None
+				tg = tg.value if isinstance(tg, ast.Subscript) else tg
+				if tg is not None and unparse(tg) == 'self.__definitions':
+					sites.append((body, chain, n))
+		if not sites:
+			rl.skip('unbind:removes-definition', lz_unbind.where, 'no removal from self.__definitions is reachable from LazyDI.unbind')
+		for body, chain, n in sites:
+			kn = known_at(lz_unbind, body, chain, n)
+			bad = [(unparse(a), pol) for a, pol, ly in kn if ly == 'materialised' or (ly == 'definitions' and not pol)]
+			other = [(unparse(a), pol) for a, pol, ly in kn if ly == 'other']
+			if bad:
+				rl.violate('unbind:removes-definition', lz_unbind.where, f'LazyDI.unbind removes the by-name registration only under {bad}: a registration that was never resolved in this container has no materialised binding, so it survives unbind and the symbol is still resolvable afterwards', unparse(n))
+			elif other:
+				rl.skip('unbind:removes-definition', lz_unbind.where, f'removal of the registration depends on conditions this rule does not model: {other}')
+			else:
+				rl.ok('unbind:removes-definition', lz_unbind.where, message=f'`{unparse(n)}` under {[(unparse(a), pol) for a, pol, _ in kn]}')
+	if lz_res is not None:
+		for body, chain in inlined_bodies2(lz_res, 0, full=True):
+			for n in calls(body, '__bind_proxy'):
+				kn = known_at(lz_res, body, chain, n)
+				has_def = any(ly == 'definitions' and pol for _, pol, ly in kn)
+				has_mat = any(ly == 'materialised' and not pol and 'can_resolve' in unparse(a) for a, pol, ly in kn)
+				wrong = [(unparse(a), pol) for a, pol, ly in kn if (ly == 'definitions' and not pol) or (ly == 'materialised' and pol)]
+				other = [(unparse(a), pol) for a, pol, ly in kn if ly == 'other']
+				if wrong or not has_def or not has_mat:
+					rl.violate('resolve:proxy-when-defined-and-unbound', lz_res.where, f'LazyDI.resolve must materialise the by-name registration exactly when the symbol is in the definitions and not yet bound in DI (else the lookup raises KeyError instead of ValueError, or bind raises on every later resolve); it runs under {[(unparse(a), pol) for a, pol, _ in kn]}', unparse(n))
+				elif other:
+					rl.skip('resolve:proxy-when-defined-and-unbound', lz_res.where, f'conditions this rule does not model: {other}')
+				else:
+					rl.ok('resolve:proxy-when-defined-and-unbound', lz_res.where)
 
 	# ---- (b2) store keys are normalised symbols ------------------------------------------------------------------------
 	rk = rep.rule('C19/store-keys-normalised', 'every key used to index / test / delete the binding stores is the normalised symbol (result of _acceptable_symbol / __find_symbol for DI, __symbolize for LazyDI), never the raw argument', floor=10)
